@@ -18,8 +18,11 @@ package postgresql
 
 import (
 	"context"
+	"fmt"
+	"strings"
 
 	pg_query "github.com/cossacklabs/pg_query_go/v5"
+	pg_query_parser "github.com/cossacklabs/pg_query_go/v5/parser"
 	"github.com/sirupsen/logrus"
 
 	"github.com/cossacklabs/acra/decryptor/base"
@@ -42,7 +45,25 @@ func (obj *onQueryObject) Statement() (*pg_query.ParseResult, error) {
 	if obj.statement != nil {
 		return obj.statement, nil
 	}
-	return pg_query.Parse(obj.query)
+	return ParseQuery(obj.query)
+}
+
+// ParseQuery parses query with PostgreSQL's parser. PostgreSQL reports syntax errors as
+// `<description> at or near "<piece of the query>"` and callers log these errors. The quoted piece may be a value
+// of the query (e.g. the rest of an unterminated string), so only the description and the position are kept.
+func ParseQuery(query string) (*pg_query.ParseResult, error) {
+	result, err := pg_query.Parse(query)
+	if err == nil {
+		return result, nil
+	}
+	message := err.Error()
+	if i := strings.Index(message, " at or near "); i >= 0 {
+		message = message[:i]
+	}
+	if parseErr, ok := err.(*pg_query_parser.Error); ok {
+		return nil, fmt.Errorf("%s at position %d", message, parseErr.Cursorpos)
+	}
+	return nil, fmt.Errorf("%s", message)
 }
 
 // Query return stored query or encode statement to string
